@@ -170,9 +170,12 @@ def gen_history(seed, tier, prop, kinds_allowed):
         n = r.randint(24, 96)
     wide = thorough and kind in ('anova', 'nicv', 'snr', 'mia', 'ttacc') and r.random() < 0.05
     m = 64 if wide else _weighted(r, [(1, 1), (r.randint(2, 4), 4), (r.randint(5, 8), 2)])
-    scn['amp'] = r.choice([1, 3, 15, 16]) if regime == 'exact' else 0
-    if tdtype == 'int8':
-        scn['amp'] = min(scn['amp'], 15)
+    # amplitudes up to the full range of the storage dtype: arithmetic done in the narrow trace dtype (a wrapped square, a truncated
+    # sum) only shows on large sample values; exact_ok() below lowers the amplitude again where the sums would stop being exact
+    full = {'uint8': 255, 'int8': 254, 'int16': 4094, 'float32': 1023, 'float64': 4095}[tdtype]
+    scn['amp'] = r.choice([1, 3, 15, 16, full, full]) if regime == 'exact' else 0
+    if tdtype == 'int8' and scn['amp'] == 16:
+        scn['amp'] = 15
     if regime == 'exact' and precision == 'float64' and tdtype in ('int16', 'float64', 'float32') and r.random() < 0.2:
         scn['offset'] = r.choice([1000, -1000, 4096])      # integer offset, float64 precision only (DESIGN 3)
     # word layout
@@ -411,7 +414,12 @@ def generate_c16(seed, tier):
             cands = ['type_traces']
         bk = fr.choice(cands)
         a = fr.randint(0, 40)
-        ops.insert(pos, ['bad', bk, a, a + fr.randint(2, 6)])
+        op = ['bad', bk, a, a + fr.randint(2, 6)]
+        if first and auto and fr.random() < 0.5:
+            # decoy range: the refused first batch only carries small values, so a class set (or anything else) derived from it
+            # and left behind would be too small for the batches accepted later
+            op.append('low')
+        ops.insert(pos, op)
     if kind in ('tstatic', 'tdpa'):
         # object starts unbuilt when a not_built probe is first; 'build' op follows it
         if any(o[0] == 'bad' and o[1] == 'not_built' for o in ops):
@@ -718,7 +726,8 @@ def _execute_history(scn):
             if op[0] == 'bad':
                 bk, a, b = op[1], op[2], op[3]
                 first = not accepted
-                bt, bd = _bad_args(scn, bk, traces[a:b], data[a:b])
+                src = data[a:b] % 8 if (len(op) > 4 and op[4] == 'low') else data[a:b]
+                bt, bd = _bad_args(scn, bk, traces[a:b], src)
                 before = subject.count()
                 if bk == 'lowmem':
                     mem.available = 1
@@ -855,7 +864,7 @@ def candidates(scn):
                 yield c
         if op[0] == 'bad' and op[3] - op[2] > 2:
             c = copy.deepcopy(scn)
-            c['ops'][i] = ['bad', op[1], op[2], op[2] + 2]
+            c['ops'][i] = ['bad', op[1], op[2], op[2] + 2] + op[4:]
             yield c
         if op[0] == 'cc':
             c = copy.deepcopy(scn)
